@@ -9,6 +9,7 @@ import (
 	"sort"
 	"strconv"
 	"strings"
+	"unicode"
 )
 
 func constStr(st *State, v Value, what string) string {
@@ -577,6 +578,19 @@ func registerLibHooks(e *Engine) {
 	}
 	H["unicode.IsDigit"] = func(st *State, a []Value) Value {
 		return inRanges(st, a[0], [2]int64{'0', '9'})
+	}
+	// ASCII model (symbolic runes are ASCII in every harness; a constant rune is decided exactly)
+	H["unicode.IsUpper"] = func(st *State, a []Value) Value {
+		if t, ok := a[0].(*Term); ok && t.Const && t.CI != nil && t.CI.IsInt64() {
+			return BoolT(unicode.IsUpper(rune(t.CI.Int64())))
+		}
+		return inRanges(st, a[0], [2]int64{'A', 'Z'})
+	}
+	H["unicode.IsLower"] = func(st *State, a []Value) Value {
+		if t, ok := a[0].(*Term); ok && t.Const && t.CI != nil && t.CI.IsInt64() {
+			return BoolT(unicode.IsLower(rune(t.CI.Int64())))
+		}
+		return inRanges(st, a[0], [2]int64{'a', 'z'})
 	}
 	// strings.IndexFunc(s, f) for a pure predicate f: f is evaluated concretely
 	// on every ASCII code point; "no rune satisfies f" becomes a regular
